@@ -74,6 +74,9 @@ class State:
                 res = ("got", len(d))
             except socket.timeout:
                 res = ("timeout",)
+        elif kind == "combine":
+            # the receiving application folds stderr into stdout (moves buffered stderr data, too)
+            res = ("combine", b.set_combine_stderr(True))
         elif kind == "dA":
             res = ("delivered", self.cp.deliver("A"))
         elif kind == "dB":
@@ -110,7 +113,7 @@ class State:
         a, b = self.cp.a, self.cp.b
         return (self.remaining, a.out_window_size, b.in_window_sofar, len(b.in_buffer),
                 len(b.in_stderr_buffer), tuple(self.inflight("A")), tuple(self.inflight("B")),
-                a.closed, b.closed, a.eof_sent, b.eof_received)
+                a.closed, b.closed, a.eof_sent, b.eof_received, bool(b.combine_stderr))
 
     def ledger(self):
         """C19 invariants over the global message order.  Returns None or (clause, detail)."""
@@ -203,6 +206,7 @@ def alphabet19(W, P):
         evs.append(("recv_err", n))
     evs.append(("dA",))
     evs.append(("dB",))
+    evs.append(("combine",))
     return evs
 
 
